@@ -39,6 +39,20 @@ func c07Scenarios(thorough bool) []ConcScenario {
 		seg.Plans[i].Script = []string{"data:[" + id + "-client-1]", "data:[" + id + "-client-2]", "data:[" + id + "-client-3]", "recvbytes:34", "drop"}
 	}
 	out = append(out, seg)
+	// the same with a scheduling point between a read's return and the reader's next step
+	pr := seg
+	pr.Name = "two-legacy+legacy-read-return"
+	pr.PostRead = true
+	pr.Plans = append([]TunnelPlan{}, seg.Plans...)
+	out = append(out, pr)
+	big := ConcScenario{Name: "two-legacy+legacy-large-chunk-read-return", Deviation: true, Segmented: true, RoundRobin: true, PostRead: true, Plans: []TunnelPlan{c07Plan("legacy", "A", 1, "drop"), c07Plan("legacy", "B", 2, "drop")}}
+	for i := range big.Plans {
+		id := []string{"A", "B"}[i]
+		big.Plans[i].Script = []string{"bigdata:[" + id + "-client-big]", "data:[" + id + "-client-2]", "recvbytes:34", "drop"}
+	}
+	out = append(out, big)
+	prw := ConcScenario{Name: "two-ws+ws-read-return", Deviation: true, PostRead: true, Plans: []TunnelPlan{c07Plan("ws", "A", 1, "drop"), c07Plan("ws", "B", 2, "drop")}}
+	out = append(out, prw)
 	if thorough {
 		out = append(out, ConcScenario{Name: "three-ws+legacy+ws", Deviation: true,
 			Plans: []TunnelPlan{c07Plan("ws", "A", 1, "close"), c07Plan("legacy", "B", 2, "close"), c07Plan("ws", "C", 3, "drop")}})
